@@ -122,6 +122,69 @@ pub fn optimizer_update<S: Source>(s: &mut S) {
     forget((p, x, old, r, g));
 }
 
+/// a node whose first adjoint contribution arrives through an addition (which hands the *same*
+/// delta buffer to both operands) and whose later one is a fresh array: the seed, the root's
+/// gradient and the other operand's gradient all sit on that shared buffer and must not change
+pub fn accumulate_shared<S: Source>(s: &mut S) {
+    let a = mk(s, &[2], Dom::D4).tracked();
+    let k = mk(s, &[2], Dom::D4);
+    let (sa, sk) = (snap(&a), snap(&k));
+    let p = &a * &k;
+    let y = &a + &p;
+    let (sp, sy) = (snap(&p), snap(&y));
+    let seed = mk(s, &[2], Dom::D4);
+    let sseed = snap(&seed);
+    y.backward(Some(seed.clone()));
+    unchanged(&seed, &sseed);
+    unchanged(&a, &sa);
+    unchanged(&k, &sk);
+    unchanged(&p, &sp);
+    unchanged(&y, &sy);
+    // the root's and the product's stored gradients are the seed's values
+    let gy: Array = y.gradient().as_ref().unwrap().clone();
+    let gp: Array = p.gradient().as_ref().unwrap().clone();
+    unchanged(&gy, &sseed);
+    unchanged(&gp, &sseed);
+    let ga: Array = a.gradient().as_ref().unwrap().clone();
+    let sga = snap(&ga);
+    y.backward(None);
+    unchanged(&seed, &sseed);
+    unchanged(&ga, &sga);
+    witness();
+    forget((a, k, p, y, seed, gy, gp, ga));
+}
+
+/// a storage-sharing view taken while the array was not (yet) tracked survives an optimizer
+/// update that happens after the graph has been dropped
+pub fn update_after_graph_dropped<S: Source>(s: &mut S, late_view: bool) {
+    let lr = s.lr();
+    let base = mk(s, &[2, 2], Dom::D4);
+    let x = mk(s, &[2, 2], Dom::D4);
+    let (view, mut w) = if late_view {
+        let w = base.tracked();
+        w.stop_tracking();
+        let v = w.reshape(vec![1, 4]);
+        w.start_tracking();
+        (v, w)
+    } else {
+        let v = base.reshape(vec![4]);
+        (v, base.tracked())
+    };
+    let sv = snap(&view);
+    let old = snap(&w);
+    let loss = (&w * &x).sum(2);
+    loss.backward(None);
+    let g: Vec<Float> = w.gradient().as_ref().unwrap().values().to_vec();
+    drop(loss);
+    GradientDescent::new(lr).update(vec![&mut w]);
+    unchanged(&view, &sv);
+    for i in 0..4 {
+        chk!(w.values()[i] == old.v[i] - lr * g[i], "[c08:update-value] the replaced parameter is not old - lr * gradient");
+    }
+    witness();
+    forget((view, w, x));
+}
+
 /// dropping other handles (a clone, a result that recorded the array) changes nothing
 pub fn drop_others<S: Source>(s: &mut S) {
     let a = mk(s, &[2], Dom::D4).tracked();
